@@ -643,4 +643,9 @@ func runConc(args []string) {
 		bv = 3
 	}
 	bigValue(seed, bv, want, enc)
+	br := rounds
+	if br > 2 && os.Getenv("VERIF_TIER") != "thorough" {
+		br = 2
+	}
+	bigRead(seed, br, want, enc)
 }
